@@ -13,7 +13,7 @@ def sh(cmd, **kw):
 def repo_clean():
     return sh("git -C /repo status --porcelain --untracked-files=no").stdout.strip() == ""
 
-for d in sorted(glob.glob(f"{ROOT}/seeded/C*-m*")):
+for d in sorted(glob.glob(f"{ROOT}/seeded/C*-*m[0-9]")):
     sid = os.path.basename(d)
     if only and sid not in only:
         continue
@@ -41,7 +41,7 @@ for d in sorted(glob.glob(f"{ROOT}/seeded/C*-m*")):
         "summary": am.get("summary"),
         "needs": am.get("needs"),
         "demo_path": am.get("demo_path"),
-        "produced_by": "fresh sub-agent given only the property text and a scratch worktree of /repo (HEAD 3840924)",
+        "produced_by": "fresh sub-agent given only the property text (round 2: plus one-line summaries of the round-1 changes to avoid) and a scratch worktree of /repo (HEAD 3840924)",
         "confirmed": plan.get(sid, {}).get("confirmed", "tools/confirm_mutant.sh: patch applies; builds with and without --features verif-hooks; existing suite 56 passed 0 failed with the patch; demo passes on the base and fails with the patch"),
         "ran": [f"tools/confirm_mutant.sh {prop} {sid.split('-')[1]}", f"git -C /repo apply seeded/{sid}/patch.diff; VERIF_SEED=1 ./check <id> quick for {checks}; git -C /repo checkout -- ."],
         "detection": det,
